@@ -47,7 +47,7 @@ class C06(runner.Check):
   prop = 'C06'
   level = 'fault_enumeration'
   engine = 'svc+simnet'
-  rule = ('one evaluation = one (fault plan, history): 1-2 algorithm faults (exception of 10 types, or '
+  rule = ('one evaluation = one (fault plan, history): 1-2 algorithm faults (exception of 22 types with short, empty, multi-line, non-ASCII or multi-KiB messages, or '
           'delivery of 0 / N-k / N+k suggestions, or a metadata delta naming a missing trial) injected '
           'at the 1st / k-th / a range of suggest or early-stop invocations, behind the in-process '
           'Pythia, the gRPC server or the split remote-Pythia deployment, inside a history of client '
@@ -86,7 +86,11 @@ class C06(runner.Check):
             + ['deliver:0', 'deliver:-1', 'deliver:-2', 'deliver:+1', 'deliver:+2', 'deliver:+3', 'bad-delta'])
       else:
         kind = rng.choice(['raise:' + rng.choice(P.EXCEPTION_TYPES)] * 3 + ['bad-delta', 'no-decision'])
-      faults.append({'site': site, 'at': at, 'kind': kind})
+      fault = {'site': site, 'at': at, 'kind': kind}
+      if kind.startswith('raise:') and rng.random() < 0.35:
+        mk = rng.choice(['empty', 'multiline', 'nonascii', 'long', 'long-nonascii', 'long-nonascii'])
+        fault['msg'] = {'kind': mk, 'n': rng.choice([300, 4090, 4500, 6000]), 'pad': rng.randrange(6)}
+      faults.append(fault)
     net_faults = []
     if deploy_kind == 'split' and rng.random() < 0.5:
       # The algorithm call itself fails in transit: request or response of the
